@@ -47,6 +47,7 @@ type scnBMC struct {
 	Sensors          map[string]string   `json:"sensors"`
 	DCMISensors      map[string][]uint16 `json:"dcmisensors"`
 	PageSize         int                 `json:"pagesize"`
+	Overcount        int                 `json:"overcount"`
 	OverridePassword *string             `json:"override_password"`
 	OverrideKG       *string             `json:"override_kg"`
 	DeviceID         string              `json:"deviceid"`
@@ -543,6 +544,7 @@ func newSimBMC(c scnBMC) *sim.BMC {
 	if c.PageSize > 0 {
 		b.DCMIPageSize = c.PageSize
 	}
+	b.DCMIOvercount = c.Overcount
 	if c.OverridePassword != nil {
 		b.OverridePassword = unhexOrEmpty(*c.OverridePassword)
 		if b.OverridePassword == nil {
